@@ -20,3 +20,9 @@ def check(repo, rep, tier):
     rep.run(rx.rule_lookups_agree, em, rep, 'C20.U6')
     from .. import rules_state as rs
     rep.run(rs.rule_atoms_unify_by_name, em, rep, 'C20.U7')
+    # compiled code reaches every predicate - compiled, Python, dynamic facts - through the one dispatcher (query by name):
+    # a compiled goal that calls a function of its own module directly would treat a compiled predicate differently from a
+    # Python one of the same name
+    from .. import rules_compile as rc
+    from .. import rules_clause as rcl
+    rep.run(rcl.rule_calls_late_bound, rc.CompilerModel(repo), rep, 'C20.U8')
